@@ -282,20 +282,19 @@ def dynamic_case(report, drv, rng, allow_old, allow_new, deny_new, whitelist, ou
     ProbedSet.log = None
     payload = {"allow_old": allow_old, "allow_new": allow_new, "deny_new": deny_new, "whitelist": whitelist, "outsider": outsider}
     new_keys = {p for chunk in allow_new for p in chunk}
-    expect_final = new_keys | (set(whitelist) if new_keys else set())
+    # "exactly the p-tagged pubkeys of the configured queries plus the static whitelist"
+    expect_final = new_keys | set(whitelist)
     # never an empty window for an enforced list that stays enforced
-    if enforced_before and new_keys and outsider not in new_keys and outsider not in whitelist:
+    if enforced_before and expect_final and outsider not in expect_final:
         bad = [o for o in observed if o[1] == "admitted"]
         if bad:
             report.property_failure("during the refresh of an enforced allow list an outsider was admitted at %s (list size %d)"
                                     % (bad[0][0], bad[0][2]), payload, None)
     final = {x.hex() for x in dl.ALLOWED_PUBKEYS}
-    want = new_keys | set(whitelist) if (new_keys or not whitelist) else None
-    if new_keys and final != expect_final:
-        report.property_failure("after the refresh the allow list holds %d keys, expected %d" % (len(final), len(expect_final)), payload, None)
-    if not new_keys and whitelist and final != set(whitelist):
-        report.property_failure("the configured queries matched nothing: the allow list is %r, not the static whitelist"
-                                % sorted(final), payload, "dynlist-empty-result-drops-whitelist")
+    if final != expect_final:
+        report.property_failure("after the refresh the allow list holds %s, expected the queries' pubkeys plus the static whitelist (%d keys)%s"
+                                % (sorted(x[:6] for x in final), len(expect_final),
+                                   "; the configured queries matched nothing" if not new_keys else ""), payload, None)
     # correspondence: the atomic operations on the allow list and the states between them
     model_ops = [{"op": {"clear": "clear", "update": "update", "add": "update", "intersection_update": "isect"}.get(o[1], o[1]),
                   "s": o[2] or []} for o in ops]
